@@ -38,6 +38,8 @@ def handle : Handler
       | some a, some [l, o, n] => showInt (tsAccessor a ⟨l, o⟩ n) | _, _ => "bad-op"
   | ["accfix", name, l, o, tz] => match accOfName name, ints [l, o], parseText tz with
       | some a, some [l, o], some tz => showInt (tsAccessorFixed a ⟨l, o⟩ tz) | _, _, _ => "bad-op"
+  | ["accsumfix", name, l, o, d, tz] => match accOfName name, ints [l, o, d], parseText tz with
+      | some a, some [l, o, d], some tz => showInt (tsAdd ⟨l, o⟩ d >>= fun t => tsAccessorFixed a t tz) | _, _, _ => "bad-op"
   | ["tzoff", tz] => match parseText tz with
       | some tz => showInt (tzOffsetParse tz) | _ => "bad-op"
   | ["durparse", t] => match parseText t with
